@@ -343,6 +343,31 @@ theorem lowerS_trace_partial (fns : List FnDef) (P : Prog) (hP : lowerProg fns =
       | stuck w => simp [bodyValue] at h
   exact ⟨main, fun t' o' h' => ExecC.det h' main⟩
 
+open RotoV.LowerS in
+/-- **One call of `main`** (what the correspondence run observes): if the
+    specification's `run` — `main` applied to the argument values — yields the
+    value `v` after the host calls `t`, then the structured MIR of `main`,
+    started from a store that holds exactly the parameters, returns `v` after
+    exactly the calls `t`, and has no other behaviour. -/
+theorem lowerS_run_partial (fns : List FnDef) (P : Prog) (hP : lowerProg fns = some P) (fd : FnDef)
+    (code : Code) (fuel : Nat) (args : List Val) (cenv : Env) (v : Val)
+    (hmain : fns.getLast? = some fd) (hl : lowerFn fd = some code)
+    (hb : bindParams fd.params args [] = some cenv) (h : (run fns fuel args).result = .ok v) :
+    ExecC P (storeOfEnv cenv) code (run fns fuel args).tr (.returned v) ∧
+    ∀ t' o', ExecC P (storeOfEnv cenv) code t' o' → t' = (run fns fuel args).tr ∧ o' = .returned v := by
+  have hagree : Agree cenv (storeOfEnv cenv) := by
+    intro x w hx; simp [storeOfEnv, hx]
+  have hrun : (run fns fuel args).tr = (evalBlock fns fuel cenv fd.body).tr := by simp [run, hmain, hb]
+  have hval : bodyValue (evalBlock fns fuel cenv fd.body).out = some v := by
+    simp only [run, hmain, hb] at h
+    cases ho : (evalBlock fns fuel cenv fd.body).out with
+    | ok p => simp [ho] at h; simp [bodyValue, h]
+    | ret w => simp [ho] at h; simp [bodyValue, h]
+    | fuel => simp [ho] at h
+    | stuck w => simp [ho] at h
+  rw [hrun]
+  exact lowerS_trace_partial fns P hP fd code fuel cenv (storeOfEnv cenv) v hl hagree hval
+
 /-! ### T3 — dce_preserves, for a semantics that logs host calls -/
 
 section dce
@@ -498,6 +523,9 @@ example : (lowerFn demoFn7).isSome = true := by decide
 example : bodyValue (evalBlock [] 40 [(0, .int 4)] demoFn7.body).out = some (.int 9) := by decide
 example : (evalBlock [] 40 [(0, .int 4)] demoFn7.body).tr
     = [⟨0, [.int 1, .int 4]⟩, ⟨0, [.int 2, .int 4]⟩, ⟨0, [.int 2, .int 5]⟩] := by decide
+-- lowerS_run_partial: `run` on the two-function program above
+example : (run demoProg 40 [.int 5]).result = .ok (.int 12) := by decide
+example : demoProg.getLast?.isSome = true := by decide
 end nonvacuity
 
 end RotoV.C08
